@@ -706,7 +706,7 @@ func genC11uci(rng *hx.Rng, n int, tier string, emit func(hx.Input)) {
 // The driver is re-run on every prefix of the script (a deterministic function of the script), so
 // that the error line and the board can be attributed to each command.
 func init() {
-	hx.Register(&hx.Stream{Name: "c11seq", Gen: genC11seq, Run: runC11seq})
+	hx.Register(&hx.Stream{Name: "c11seq", Gen: genC11seq, Run: runC11seq, Shrink: shrinkC11Seq, Describe: describeC11Seq})
 }
 
 func uciSeqErrClass(line string) int {
@@ -1043,7 +1043,7 @@ func genC11seq(rng *hx.Rng, n int, tier string, emit func(hx.Input)) {
 // - always into the SAME b (the tuner reads a whole file into one Board). The second half of each
 // record is the same call on a fresh Board.
 func init() {
-	hx.Register(&hx.Stream{Name: "c11reuse", Gen: genC11reuse, Run: runC11reuse})
+	hx.Register(&hx.Stream{Name: "c11reuse", Gen: genC11reuse, Run: runC11reuse, Shrink: shrinkC11Reuse, Describe: describeC11Reuse})
 }
 
 func reuseParse(mode int, b *board.Board, text []byte) int {
